@@ -183,6 +183,36 @@ func (r *rewriter) file(f *ast.File) {
 			}
 		}
 	}
+	// 2a. time.AfterFunc: the callback must run as a task of the simulator
+	timeName := ""
+	for _, im := range f.Imports {
+		if im.Path.Value == `"time"` {
+			timeName = "time"
+			if im.Name != nil {
+				timeName = im.Name.Name
+			}
+		}
+	}
+	if timeName != "" && timeName != "_" && timeName != "." {
+		ast.Inspect(f, func(n ast.Node) bool {
+			se, ok := n.(*ast.SelectorExpr)
+			if !ok || se.Sel.Name != "AfterFunc" {
+				return true
+			}
+			id, ok := se.X.(*ast.Ident)
+			if !ok || id.Name != timeName {
+				return true
+			}
+			if r.info != nil {
+				if _, isPkg := r.info.Uses[id].(*types.PkgName); !isPkg {
+					return true
+				}
+			}
+			se.X = ast.NewIdent("simrt")
+			r.st.syncs++
+			return true
+		})
+	}
 	// 2. sync types
 	if syncName != "" && syncName != "_" && syncName != "." {
 		ast.Inspect(f, func(n ast.Node) bool {
@@ -222,6 +252,9 @@ func (r *rewriter) file(f *ast.File) {
 	}
 	if syncName != "" && !astutil.UsesImport(f, "sync") {
 		astutil.DeleteImport(r.fset, f, "sync")
+	}
+	if timeName != "" && !astutil.UsesImport(f, "time") {
+		astutil.DeleteImport(r.fset, f, "time")
 	}
 }
 
